@@ -256,9 +256,28 @@ def r5(ctx):
 
     loops = [natural_loop(b, t_, h) for t_, h in b.has_cycle()]
     # the sweep loop: the one that contains the remove_if call
-    rm = [bb for bb, t in b.calls() if t.callee.name == "remove_if"]
-    ln = [bb for bb, t in b.calls() if t.callee.name in ("len", "is_empty") and (t.callee.trait == CACHE or (t.callee.path or "").startswith(CACHE))]
-    sweep = [L for L in loops if rm and rm[0] in L]
+    import callgraph
+
+    cg = callgraph.get(ctx)
+
+    def is_cache(c, names):
+        return c.name in names and (c.trait == CACHE or (c.path or "").startswith(CACHE))
+
+    def call_blocks(names):
+        """blocks of b whose call is Cache::<names>, or an in-crate helper from which such a call is reachable"""
+        out = []
+        for bb, t in b.calls():
+            if is_cache(t.callee, names):
+                out.append(bb)
+                continue
+            tg = [x for x in cg.targets(t.callee) if x in f.bodies and not x.startswith(MS + "::")]
+            if any(any(is_cache(t2.callee, names) for _bb, t2 in cg.sites.get(r, ())) for r in cg.reachable(tg)):
+                out.append(bb)
+        return out
+
+    rm = call_blocks(("remove_if",))
+    ln = call_blocks(("len", "is_empty"))
+    sweep = [L for L in loops if any(x in L for x in rm)]
     rep.check(bool(sweep), "sweep-loop", "eviction loop found", "cannot find the eviction loop (a loop containing the remove_if call)", b.loc())
     if sweep:
         L = sweep[0]
@@ -278,7 +297,7 @@ def r5(ctx):
                 t = b.blocks[y].term
                 if t.k == "switch" and any(s_ not in L for s_ in t.succs()):
                     exits = True
-                if t.k == "call" and t.callee.name == "remove_if":
+                if t.k == "call" and y in rm:
                     continue
                 st.extend(t.succs())
         rep.check(exits, "sweep:empty-exit", "an exit of the loop follows the size read", "no exit of the eviction loop depends on the store size read inside it", b.loc())
